@@ -17,6 +17,29 @@ def impl(case):
             except Exception as e:  # noqa
                 out.append(["exc", type(e).__name__])
         return {"res": out}
+    if case.get("op") == "after_noise":
+        # the same collection classified before and after unrelated work in the same process: other collections classified and queried
+        # (membership queries run the reduction in check mode); the answer must not depend on what the process did before
+        from paulie import get_pauli_string
+        def alg(g):
+            try:
+                return get_pauli_string(g).get_algebra()
+            except Exception as e:  # noqa
+                return "!" + type(e).__name__
+        before = alg(case["gens"])
+        for nz in case["noise"]:
+            try:
+                c = get_pauli_string(nz["gens"])
+                c.get_algebra()
+                for q, pr in nz["probes"]:
+                    x = get_pauli_string([pr])
+                    try:
+                        {"is_in": c.is_in, "select_dependents": c.select_dependents, "is_eq": c.is_eq}[q](x)
+                    except Exception:  # noqa
+                        pass
+            except Exception:  # noqa
+                pass
+        return {"before": before, "after": alg(case["gens"]), "fresh_object_again": alg(list(case["gens"]))}
     if case.get("op") == "depcheck":
         from paulie import get_pauli_string
         from paulie.classifier.morph_factory import MorphFactory
@@ -284,10 +307,43 @@ def main():
         answers = [by_seed[s][idx].get("algebra", "!" + str(by_seed[s][idx].get("exc"))) for s in range(len(seeds))]
         if len({norm(a) for a in answers}) != 1:
             ck.fail(None, "answer depends on the process / hash seed: %s on %s" % (dict(zip(seeds, answers)), g), {"gens": g, "transformation": "hash-seed", "transformed": g, "answers": dict(zip(seeds, answers))})
+    # "the same across repeated calls": the answer for G before and after unrelated work in the same process — two-local chains (long legs) and
+    # random collections of the same and of other lengths are classified and asked membership questions (low-weight and random probes) in between
+    noisy = []
+    for _ in range(120 if ck.quick else 1200):
+        n = ck.rng.randint(3, 6)
+        target = [G.uniform(ck.rng, n) for _ in range(ck.rng.randint(1, 4))]
+        noise = []
+        for _k in range(ck.rng.randint(1, 3)):
+            m = n if ck.rng.random() < 0.8 else ck.rng.randint(2, 6)
+            if ck.rng.random() < 0.6:
+                ng = G.long_chain_cases(ck.rng, 1, m)[0][2]
+            else:
+                ng = [G.uniform(ck.rng, m) for _ in range(ck.rng.randint(2, 8))]
+            probes = []
+            for _j in range(ck.rng.randint(2, 8)):
+                if ck.rng.random() < 0.6:
+                    i = ck.rng.randrange(m)
+                    pr = "I" * i + ck.rng.choice("XYZ") + "I" * (m - i - 1)
+                else:
+                    pr = G.uniform(ck.rng, m)
+                probes.append([ck.rng.choice(["is_in", "is_in", "select_dependents", "is_eq"]), pr])
+            noise.append({"gens": ng, "probes": probes})
+        noisy.append({"op": "after_noise", "gens": target, "noise": noise})
+    nres = ck.impl("c03", noisy, per_case_s=300)
+    for c, r in zip(noisy, nres):
+        if "exc" in r:
+            continue
+        answers = [r["before"], r["after"], r["fresh_object_again"]]
+        if len({norm(a) for a in answers}) != 1:
+            ck.fail(None, "answer depends on what the process did before: %s is %s, and %s / %s after unrelated collections were classified and queried (%s)" % (
+                c["gens"], r["before"], r["after"], r["fresh_object_again"], [nz["gens"] for nz in c["noise"]]),
+                {"gens": c["gens"], "transformation": "process-history", "transformed": c["gens"], "noise": c["noise"], "answers": answers})
+    ck.cov["process_history_cases"] = len(noisy)
     byn = {}
     for _, n, _g in base:
         byn[n] = byn.get(n, 0) + 1
-    ck.cov["evaluations"] = len(jobs) + len(sample) * len(seeds)
+    ck.cov["evaluations"] = len(jobs) + len(sample) * len(seeds) + len(noisy)
     ck.cov["distinct_nontrivial"] = len(nt)
     ck.cov["rule"] = ("base collections n=2..16, each with reorder, duplicate, qubit permutation, per-site X/Y/Z relabelling, appended identities, "
                       "contraction and added product; summand multisets (normalised under the low-rank coincidences) compared with the base answer; "
